@@ -305,7 +305,7 @@ def odd_sections(s0: int, v0: int) -> bool:
 
 @H.ob(model="none", quick=400, thorough=900,
       targets=("configs/validate.py:validate_config", "clematis/engine/stages/t1.py:t1_propagate", "clematis/engine/stages/t4.py:t4_filter", "clematis/engine/apply.py:apply_changes", "clematis/engine/stages/t2/core.py:t2_semantic"),
-      stubs=("t1.stable_key -> constant (keeps symbolic knobs away from json.dumps); apply.write_snapshot -> recorder",),
+      stubs=("t1.stable_key and t2.core.stable_key -> constant (both stage caches are off; keeps symbolic knobs away from json.dumps); apply.write_snapshot -> recorder",),
       bounds="one numeric engine knob at a time, by symbolic index over {t1.queue_budget, t1.iter_cap, t1.radius_cap, t4.churn_cap_edges, t4.snapshot_every_n_turns, t2.k_retrieval, scheduler.budgets.t1_pops/t1_iters/t2_k/t3_ops, t3.max_ops_per_turn} set to an unbounded symbolic int; the config must first be ACCEPTED by the real validator (else the path is vacuous); then the stages T1, T2, T4+apply run on world W3/M3 under it",
       split={"ki": list(range(11))},
       note="C14 engine contract: every configuration the validator accepts lets the stages execute without raising (stage-level; whole turns are run in the turn-level harness)")
@@ -330,8 +330,10 @@ def engine_contract(ki: int, v: int) -> bool:
     except ConfigError:
         return True
     W.reset_globals()
-    saved_key, saved_snap = T1.stable_key, AP.write_snapshot
+    import clematis.engine.stages.t2.core as T2CORE
+    saved_key, saved_snap, saved_key2 = T1.stable_key, AP.write_snapshot, T2CORE.stable_key
     T1.stable_key = lambda o: "K"
+    T2CORE.stable_key = lambda o: "K"  # the T2 key is built (json.dumps) even with the cache off and holds k_retrieval / the t2_k budget
     AP.write_snapshot = lambda *a, **k: "SNAP"
     try:
         ctx = W.make_ctx(cfg, turn_id=3)
@@ -347,6 +349,6 @@ def engine_contract(ki: int, v: int) -> bool:
         except Exception:
             return False
     finally:
-        T1.stable_key, AP.write_snapshot = saved_key, saved_snap
+        T1.stable_key, AP.write_snapshot, T2CORE.stable_key = saved_key, saved_snap, saved_key2
         W.reset_globals()
     return H.verdict(True)
